@@ -157,7 +157,9 @@ std::optional<std::chrono::microseconds> getPressureTotalSome(
     if (const auto total = pressure.value().total) {
       return total.value();
     }
-    throw std::runtime_error("Senpai enabled but no total pressure info");
+    // legacy PSI format without a total: nothing to drive senpai with
+    OLOG << "Senpai enabled but no total pressure info for "
+         << cgroup_ctx.cgroup().relativePath();
   }
   return std::nullopt;
 }
@@ -358,7 +360,7 @@ SystemMaybe<int64_t> Senpai::getReclaimableBytes(
   auto inactive_file_pos = stat_opt->find("inactive_file");
   if (active_file_pos == stat_opt->end() ||
       inactive_file_pos == stat_opt->end()) {
-    throw std::runtime_error("Invalid memory.stat cgroup file");
+    return SYSTEM_ERROR(EINVAL, "Invalid memory.stat cgroup file");
   }
   auto file_cache = active_file_pos->second + inactive_file_pos->second;
 
